@@ -185,6 +185,14 @@ def classify(trace, info):
             return "reservation-admitted-above-limit"
         return "reserve-%s-unexplained" % ev.get("o")
     if kind == "ConnWrite":
+        busy = {}
+        for e in prefix[:-1]:
+            if e["ev"] == "ConnWrite" and not e.get("dead"):
+                busy[e["c"]] = e["wid"]
+            if e["ev"] == "ExchangeEnd":
+                busy.pop(e["c"], None)
+        if not ev.get("dead") and ev.get("wid") in [w for cc, w in busy.items() if cc != c]:
+            return "wire-id-of-outstanding-query-reused"
         ph = phase_of_delivery()
         if ph and not ev.get("dead"):
             return "delivered-reply-lost:query-retransmitted:reply-arrived-%s" % ph
